@@ -3,6 +3,7 @@ import Utv.Lemmas.C20Reg
 import Utv.Lemmas.C20Reg2
 import Utv.Lemmas.C20Term
 import Utv.Lemmas.C20Lazy
+import Utv.Model.C20Joint
 /-!
 C20 — concurrent use is safe, including the first use of a type.
 
@@ -155,6 +156,79 @@ theorem C20_maximal_run_finishes (W : World) (prog : Nat → List Call) (n : Nat
     · intro hf; simp [hf, PC.inCS] at hcs
     · intro hb; simp [hb.1, PC.inCS] at hcs
 
+/-- **Value level.**  Not only the verdict: the *value* of every completed call — per keyword, whether it was converted
+by its declared / referenced type or handed through unparsed — is the value the call has alone (every keyword
+converted by its type; `[]` for a call that raises).  `wrong` in `C20_no_internal_error` is the same fact seen from the
+verdict. -/
+theorem C20_values_as_alone (W : World) (prog : Nat → List Call) (sched : List Nat) (k : Nat) :
+    ((run W false (init W prog) sched).th k).vouts <+: (prog k).map (aloneVals W) :=
+  ⟨_, ((inv_reachable W prog sched).tinv k).vhist⟩
+
+theorem C20_values_finished_all (W : World) (prog : Nat → List Call) (sched : List Nat) (k : Nat)
+    (h : ((run W false (init W prog) sched).th k).pc = .fin) :
+    ((run W false (init W prog) sched).th k).vouts = (prog k).map (aloneVals W) := by
+  have T := (inv_reachable W prog sched).tinv k
+  have := T.vhist
+  rw [T.finE h] at this
+  simpa using this
+
+theorem run_replicate_idle (W : World) (s : Sys) (n j : Nat) (hj : j ≠ 0) :
+    (run W false s (List.replicate n 0)).th j = s.th j := by
+  induction n generalizing s with
+  | zero => rfl
+  | succ m ih =>
+    simp only [List.replicate_succ, run, List.foldl_cons]
+    have := ih (s.step W false 0)
+    simp only [run] at this
+    rw [this]; simp [Sys.step, hj]
+
+/-- a thread that runs alone is never made to wait and finishes within the bound `total W 1` -/
+theorem alone_run_progress (W : World) (prog : Nat → List Call) (n : Nat) :
+    ((run W false (init W prog) (List.replicate n 0)).th 0).pc = .fin ∨
+      total W 1 (run W false (init W prog) (List.replicate n 0)) + n ≤ total W 1 (init W prog) := by
+  induction n with
+  | zero => right; simp [run]
+  | succ m ih =>
+    have hrun : run W false (init W prog) (List.replicate (m + 1) 0)
+        = (run W false (init W prog) (List.replicate m 0)).step W false 0 := by
+      rw [show List.replicate (m + 1) 0 = List.replicate m 0 ++ [0] from List.replicate_succ' ..]
+      simp [run, List.foldl_append]
+    have I := inv_reachable W prog (List.replicate m 0)
+    rcases ih with h | h
+    · left
+      rw [hrun]
+      simp [Sys.step, stepTh, h]
+    · by_cases hf : ((run W false (init W prog) (List.replicate m 0)).th 0).pc = .fin
+      · left; rw [hrun]; simp [Sys.step, stepTh, hf]
+      · right
+        have he : effective (run W false (init W prog) (List.replicate m 0)) 0 := by
+          refine ⟨hf, ?_⟩
+          rintro ⟨hp, hl⟩
+          cases hlk : (run W false (init W prog) (List.replicate m 0)).g.lock with
+          | none => exact hl hlk
+          | some o =>
+            have hcs := (I.tinv o).lockI.mpr hlk
+            by_cases ho : o = 0
+            · subst ho; simp [hp, PC.inCS] at hcs
+            · rw [run_replicate_idle W _ m o ho] at hcs
+              simp [init, PC.inCS] at hcs
+        have := total_step_lt (n := 1) I (by omega) he
+        rw [hrun]; omega
+
+/-- … so the hypothesis of `C20_alone_is_sequential` is met: run alone, a call does finish, with outcome `alone W c` -/
+theorem C20_alone_terminates (W : World) (c : Call) :
+    ∃ n, ((run W false (init W fun _ => [c]) (List.replicate n 0)).th 0).pc = .fin ∧
+      ((run W false (init W fun _ => [c]) (List.replicate n 0)).th 0).outs = [alone W c] ∧
+      ((run W false (init W fun _ => [c]) (List.replicate n 0)).th 0).vouts = [aloneVals W c] := by
+  refine ⟨total W 1 (init W fun _ => [c]) + 1, ?_⟩
+  have hfin : ((run W false (init W fun _ => [c]) (List.replicate (total W 1 (init W fun _ => [c]) + 1) 0)).th 0).pc = .fin := by
+    rcases alone_run_progress W (fun _ => [c]) (total W 1 (init W fun _ => [c]) + 1) with h | h
+    · exact h
+    · omega
+  refine ⟨hfin, ?_, ?_⟩
+  · simpa using C20_finished_all W (fun _ => [c]) _ 0 hfin
+  · simpa using C20_values_finished_all W (fun _ => [c]) _ 0 hfin
+
 /-- The specification `alone` is what the model itself does when a single thread runs a single call. -/
 theorem C20_alone_is_sequential (W : World) (c : Call) (n : Nat)
     (h : ((run W false (init W fun _ => [c]) (List.replicate n 0)).th 0).pc = .fin) :
@@ -306,9 +380,13 @@ registration happened since.  Full statement (no `noRegister` hypothesis any mor
 
 /-- **C20, registry with registrations.**  For every class world, cache on/off, initial registry with a consistent
 cache, every program of lookups and registrations per thread and every schedule: every finished lookup of a class `c`
-returned `answer W v c` for a list `v` that was the published registry at some moment between the start of that lookup
-(`lo`) and its return (`hi`) — old or new for a lookup that overlaps a registration, the new one for every lookup that
-starts after `register` has returned.  The ghost witnesses `wits` pair up with the results `outs`. -/
+returned `answer W v c` for a list `v = vers[j]` that was the published registry at some moment between the lookup's
+*first shared-state line* (`lo` = index of the newest published list when the lookup executes `self._cache.get(t)` —
+or `generation = self._generation` on a non-caching registry) and its return (`hi`): `lo ≤ j ≤ hi`.  So a lookup whose
+first line runs after a `register` has published (in particular after it has returned) answers from that registration
+or a later one; a lookup that overlaps a registration may see the old or the new list.  (The ghost `lo` is taken at
+the first line of the lookup itself, not when the thread's previous operation ended.)  The ghost witnesses `wits`
+pair up with the results `outs`. -/
 theorem C20_registry_linearizable (W : Utv.C16.World) (co : Bool) (entries : List Utv.C16.Entry)
     (cache : List (Nat × Nat)) (prog : Nat → List Reg.Op) (hc : Reg.CacheOK W entries cache)
     (sched : List Nat) (k : Nat) :
@@ -393,10 +471,16 @@ example :
 Model `Utv/Model/C20Lazy.lean`.  The invariant the property needs: *a published lazy value is complete* — the object
 another thread can see is stored once, after its construction. -/
 
-/-- **C20, lazy attributes.**  Build-then-publish (what `functools.cached_property` does): for every index size, every
-set of entries that have a field, any number of threads and every schedule of getter-body lines and other steps —
-whatever a thread sees when it reads the attribute is either nothing yet or the complete index, what the getter
-returns to a thread that built it is the complete index, and the stored value is never a partial one. -/
+/-- **Protocol lemma (about `functools.cached_property`, not about utype code).**  Build-then-publish: for every index
+size, every set of entries that have a field, any number of threads and every schedule of getter-body lines and other
+steps — whatever a thread sees when it reads the attribute is either nothing yet or the complete index, what the getter
+returns to a thread that built it is the complete index, and the stored value is never a partial one.
+utype is tied to this protocol by the *static obligation* of the check (harness/c20.py `extra_static`/`scan_lazy`):
+every attribute of FunctionParser / ClassParser / BaseParser / ParserField that is written after construction is either
+written by one of the modelled `resolve_forward_refs` functions or is a `functools.cached_property` (whose body builds
+a local value and whose single store happens after the body returned), and by replaying the scheduled body lines of
+`positional_fields` on this model.  The claim for utype is therefore: "lazily initialised parser attributes are
+`cached_property` (checked statically on every run), and that protocol never exposes a partial value (this lemma)". -/
 theorem C20_lazy_publish_complete (W : Lazy.World) (sched : List (Nat × Bool)) (k : Nat) :
     let s := Lazy.run W false Lazy.init sched
     (∀ v ∈ (s.th k).views, v = none ∨ v = some (Lazy.full W)) ∧ (∀ r ∈ (s.th k).rets, r = Lazy.full W)
@@ -423,5 +507,95 @@ theorem C20_lazy_early_publish_witness :
     let s := Lazy.run W3 true Lazy.init (List.replicate 6 (0, true) ++ [(1, false)])
     (s.th 1).views = [some [0]] ∧ Lazy.full W3 = [0, 1, 2] := by
   decide +kernel
+
+
+/-! ## Parser and registry together (model `Utv/Model/C20Joint.lean`)
+
+Threads that resolve references / parse *and* look converters up (or register them), every interleaving of the two
+kinds of steps, including lookups made while the parser lock is held. -/
+
+theorem joint_proj (W : World) (RW : Utv.C16.World) (co : Bool) (sched : List (Nat × Joint.Side)) :
+    ∀ (s : Joint.Sys), (Joint.run W RW co s sched).p = run W false s.p (Joint.proj .parser sched) ∧
+      (Joint.run W RW co s sched).r = Reg2.run RW co s.r (Joint.proj .registry sched) := by
+  induction sched with
+  | nil => intro s; exact ⟨rfl, rfl⟩
+  | cons e es ih =>
+    intro s
+    obtain ⟨k, side⟩ := e
+    have := ih (Joint.step W RW co s (k, side))
+    cases side <;> simpa [Joint.run, Joint.proj, Joint.step, run, Reg2.run] using this
+
+/-- **C20, joint.**  In the product of the two models the parser component of a joint run *is* the parser-only run of the
+parser steps and the registry component *is* the registry-only run of the registry steps: the two invariants hold
+together, so for every joint schedule (a) every completed parse returned the verdict and the value it has alone,
+(b) every finished lookup answered from a list published during the lookup and the cache is never stale. -/
+theorem C20_joint_safe (W : World) (RW : Utv.C16.World) (co : Bool) (prog : Nat → List Call)
+    (entries : List Utv.C16.Entry) (cache : List (Nat × Nat)) (rprog : Nat → List Reg.Op)
+    (hc : Reg.CacheOK RW entries cache) (sched : List (Nat × Joint.Side)) (k : Nat) :
+    let s := Joint.run W RW co (Joint.init W prog entries cache rprog) sched
+    ((s.p.th k).outs <+: (prog k).map (alone W)) ∧ ((s.p.th k).vouts <+: (prog k).map (aloneVals W)) ∧
+    (∀ (i : Nat) (r : Reg.Res) (w : Reg2.Wit), (s.r.th k).outs[i]? = some r → (s.r.th k).wits[i]? = some w →
+        r = .fn (Reg.answer RW (s.r.g.vers.getD w.j []) w.cls) ∧ w.lo ≤ w.j ∧ w.j ≤ w.hi ∧ w.hi < s.r.g.vers.length) ∧
+    Reg.CacheOK RW s.r.g.entries s.r.g.cache := by
+  obtain ⟨hp, hr⟩ := joint_proj W RW co sched (Joint.init W prog entries cache rprog)
+  intro s
+  have hp' : s.p = run W false (init W prog) (Joint.proj .parser sched) := hp
+  have hr' : s.r = Reg2.run RW co (Reg2.init entries cache rprog) (Joint.proj .registry sched) := hr
+  rw [hp', hr']
+  exact ⟨C20_linearizable W prog _ k, C20_values_as_alone W prog _ k,
+         (C20_registry_linearizable RW co entries cache rprog hc _ k).2.1,
+         C20_registry_cache_never_stale RW co entries cache rprog hc _⟩
+
+/-- Two locks, no dead-lock: in every reachable joint state in which some thread has something left to do, some
+thread can take a step — a thread in the middle of a registry operation needs that operation to be able to go on (it
+cannot do parser steps meanwhile), a thread between registry operations can go on parsing or start the next one.
+(Whoever holds the registry lock never waits for the parser lock; a thread holding the parser lock may wait for the
+registry lock.) -/
+theorem C20_joint_no_deadlock (W : World) (RW : Utv.C16.World) (co : Bool) (prog : Nat → List Call)
+    (entries : List Utv.C16.Entry) (cache : List (Nat × Nat)) (rprog : Nat → List Reg.Op)
+    (hc : Reg.CacheOK RW entries cache) (sched : List (Nat × Joint.Side))
+    (h : ∃ k, ((Joint.run W RW co (Joint.init W prog entries cache rprog) sched).p.th k).pc ≠ .fin ∨
+              ((Joint.run W RW co (Joint.init W prog entries cache rprog) sched).r.th k).pc ≠ .fin) :
+    ∃ k, Joint.canStep (Joint.run W RW co (Joint.init W prog entries cache rprog) sched) k := by
+  obtain ⟨hp, hr⟩ := joint_proj W RW co sched (Joint.init W prog entries cache rprog)
+  generalize Joint.run W RW co (Joint.init W prog entries cache rprog) sched = s at *
+  have hp' : s.p = run W false (init W prog) (Joint.proj .parser sched) := hp
+  have hr' : s.r = Reg2.run RW co (Reg2.init entries cache rprog) (Joint.proj .registry sched) := hr
+  have IR : Reg2.Inv RW rprog s.r := by
+    rw [hr']; exact (Reg2.inv_run (co := co) (Joint.proj .registry sched) (Reg2.inv_init (W := RW) rprog hc)).1
+  have IP : Inv W prog s.p := by rw [hp']; exact inv_reachable W prog (Joint.proj .parser sched)
+  cases hl : s.r.g.lock with
+  | some o =>
+    -- the holder of the registry lock is at a line it can execute
+    have hh := (IR.tinv o).lockI.mpr hl
+    refine ⟨o, Or.inl ⟨⟨?_, ?_⟩, ?_⟩⟩
+    · intro hq; simp [hq, Reg2.PC.holds] at hh
+    · intro hq; simp [hq, Reg2.PC.holds] at hh
+    · rintro ⟨hq, _⟩; rcases hq with hq | hq <;> simp [hq, Reg2.PC.holds] at hh
+  | none =>
+    by_cases hm : ∃ k, Joint.midOp (s.r.th k)
+    · obtain ⟨k, hk⟩ := hm
+      exact ⟨k, Or.inl ⟨hk, fun hb => hb.2 hl⟩⟩
+    · have hm' : ∀ k, ¬ Joint.midOp (s.r.th k) := fun k hk => hm ⟨k, hk⟩
+      by_cases hs : ∃ k, (s.r.th k).pc = .start
+      · obtain ⟨k, hk⟩ := hs
+        exact ⟨k, Or.inr ⟨hm' k, Or.inr hk⟩⟩
+      · -- every registry component has finished: the parser side decides
+        have hfin : ∀ k, (s.r.th k).pc = .fin := by
+          intro k
+          apply Classical.byContradiction; intro hne
+          exact hm' k ⟨fun h1 => hs ⟨k, h1⟩, hne⟩
+        obtain ⟨k, hk⟩ := h
+        have hk' : (s.p.th k).pc ≠ .fin := by
+          rcases hk with hk | hk
+          · exact hk
+          · exact absurd (hfin k) hk
+        cases hpl : s.p.g.lock with
+        | none => exact ⟨k, Or.inr ⟨hm' k, Or.inl ⟨hk', fun hb => hb.2 hpl⟩⟩⟩
+        | some o =>
+          have hcs := (IP.tinv o).lockI.mpr hpl
+          refine ⟨o, Or.inr ⟨hm' o, Or.inl ⟨?_, ?_⟩⟩⟩
+          · intro hf; simp [hf, PC.inCS] at hcs
+          · rintro ⟨hb, _⟩; simp [hb, PC.inCS] at hcs
 
 end Utv.C20
